@@ -2,7 +2,10 @@
 """Regenerates /verif/MANIFEST.json from tools/claims.json (claimed properties) and tools/not_applicable.json."""
 import json, os
 V = os.path.dirname(os.path.dirname(os.path.abspath(__file__)))
-claims = json.load(open(os.path.join(V, "tools", "claims.json")))
+claims = {}
+for fn in sorted(os.listdir(os.path.join(V, "tools", "claims.d"))):
+    if fn.endswith(".json"):
+        claims[fn[:-5]] = json.load(open(os.path.join(V, "tools", "claims.d", fn)))
 na = json.load(open(os.path.join(V, "tools", "not_applicable.json")))
 props = [json.loads(l)["id"] for l in open(os.path.join(V, "properties.jsonl"))]
 checks = []
